@@ -102,7 +102,8 @@ class Atoms:
         if vtype == 'int':
             self.given = [m * rng.choice((1, -1)) for m in mags]
         elif vtype == 'Fraction':
-            self.given = [Fraction(m * rng.choice((1, -1)), rng.choice((1, 2, 3, 7))) for m in mags]
+            q = rng.choice((1, 2, 3, 7))
+            self.given = [Fraction(m * rng.choice((1, -1)), q) for m in mags]
         elif vtype == 'float':
             self.given = [m * rng.choice((1, -1)) / 8.0 for m in mags]
         elif vtype == 'sympy':
@@ -194,7 +195,7 @@ def call_ctor(A, ctor, inp):
     if inp.get('values') is not None:
         kw['values'] = inp['values']
     if inp.get('keys') is not None:
-        kw['keys'] = tuple(inp['keys'])
+        kw['keys'] = list(inp['keys']) if inp.get('keys_as_list') else tuple(inp['keys'])
     if inp.get('name'):
         kw['name'] = inp['name']
     if inp.get('grades') is not None:
@@ -226,9 +227,9 @@ class Ctx:
         self.R.violation({'clause': clause, 'basis': algs.kind(spec), 'graded': bool(spec.get('graded'))}, dict(algebra=spec, **rep),
                          f'{clause} in Algebra({algs.describe(spec)}): {detail}')
 
-    def add_case(self, spec, check, show, meta):
+    def add_case(self, spec, check, show, meta, show_default='(Err EOther)'):
         ref, dfn = self.pool.ref(spec)
-        self.cases.append({'check': algs.with_alg(ref, check), 'show': algs.with_alg(ref, show, '(Err EOther)'),
+        self.cases.append({'check': algs.with_alg(ref, check), 'show': algs.with_alg(ref, show, show_default),
                            'defs': [dfn], 'meta': meta})
 
 
@@ -237,7 +238,7 @@ def describe_inp(ctor, inp):
     if inp.get('values') is not None:
         parts.append(f'values={inp["values"]!r}')
     if inp.get('keys') is not None:
-        parts.append(f'keys={tuple(inp["keys"])!r}')
+        parts.append(f'keys={(list if inp.get("keys_as_list") else tuple)(inp["keys"])!r}')
     if inp.get('name'):
         parts.append(f'name={inp["name"]!r}')
     if inp.get('grades') is not None:
@@ -444,7 +445,7 @@ def check_accessors(cx, spec, A, x, coded, atoms, rng, desc, replay, name=None):
             bad('filter', f'x.filter() keeps {list(r.keys())}; stored {coded}')
     if checks:
         cx.add_case(spec, ' && '.join(f'({c})' for c in checks), kv.blist(f'({c})' for c in checks),
-                    {'kind': 'accessors', 'spec': spec, 'desc': desc, 'replay': replay, 'impl': coded})
+                    {'kind': 'accessors', 'spec': spec, 'desc': desc, 'replay': replay, 'impl': coded}, show_default='[]')
 
 
 # ----------------------------------------------------------------------------- generators
@@ -456,11 +457,13 @@ def rand_spec(rng, dmax=5, graded=None):
     sig = [rng.choice((1, 1, -1, 0)) for _ in range(d)]
     r = rng.random()
     if r < 0.35 and d >= 1:
-        spec = {'sig': sig, 'basis': algs.random_basis(rng, d)}
+        # start 8: generators spelled with hex letters (a custom basis needs a decimal smallest generator)
+        spec = {'sig': sig, 'basis': algs.random_basis(rng, d, start=rng.choice((None, None, None, 8)))}
     elif r < 0.45:
         spec = {'fromname': rng.choice(sorted(algs.NAMED))}
     else:
-        spec = {'sig': sig, 'start': rng.choice((None, None, 0, 1, 2))}
+        # start 6 (d=3), 3 (d=2): the former fallback name e{2**d} is a blade; start 16-d: generator digit e
+        spec = {'sig': sig, 'start': rng.choice((None, None, 0, 1, 2, 1 + d, 2 * d if d == 3 else 3, max(1, 16 - d)))}
     if graded if graded is not None else rng.random() < 0.3:
         spec['graded'] = True
     return spec
@@ -489,6 +492,8 @@ def wellformed_case(cx, rng, spec, vtype=None):
         style = rng.choice(['int', 'int', 'str', 'mixed'])
         keys = [k if style == 'int' or (style == 'mixed' and rng.random() < 0.5) else A.bin2canon[k] for k in ks]
         inp = {'keys': keys, 'values': list(at.given)}
+        if rng.random() < 0.3:
+            inp['keys_as_list'] = True
         r = rng.random()
         gs = sorted({grade_of(k) for k in ks})
         if r < 0.25:
@@ -646,7 +651,7 @@ def malformed_case(cx, rng, spec):
         bad_names = ['e' + format(A.start_index + A.d + rng.randint(0, 2), 'x'), 'foo', 'e1g', 'ez', 'e' + 'G',
                      random_spelling(rng, A.bin2canon[canon[-1]], True) if A.d >= 2 else 'eq']
         nm = rng.choice(bad_names)
-        which = rng.choice(['kw-alone', 'kv', 'map'])
+        which = rng.choice(['kw-alone', 'kw-mixed', 'kw-mixed', 'kv', 'map'])
         at = Atoms(rng, 2, vtype)
         if which == 'kv':
             if nm in A.canon2bin:
@@ -658,6 +663,10 @@ def malformed_case(cx, rng, spec):
             return ctor, {'values': {nm: at.given[0]}}, at, 'unknown-name'
         if blade_of(A, nm[1:]) is not None or any(c in nm[1:] for c in 'ABCDEF'):
             nm = 'ez'
+        if which == 'kw-mixed':
+            good = random_spelling(rng, A.bin2canon[rng.choice(canon)])
+            items = {nm: at.given[0], good: at.given[1]} if rng.random() < 0.5 else {good: at.given[1], nm: at.given[0]}
+            return ctor, {'items': items}, at, 'unknown-name'
         return ctor, {'items': {nm: at.given[0]}}, at, 'unknown-name'
     if kind == 'duplicate':
         ks = pick_keys(rng, A, False)[:4]
@@ -681,10 +690,17 @@ def malformed_case(cx, rng, spec):
         gs = list(range(A.d + 1)); full = list(canon)
     if len(full) < 2:
         return malformed_case(cx, rng, {k: v for k, v in spec.items() if k != 'graded'})
+    def complete(ks_):
+        own = sorted({grade_of(k) for k in ks_})
+        return list(ks_) == [k for g in own for k in A.indices_for_grade[g]]
     if rng.random() < 0.7:
-        ks = rng.sample(full, rng.randint(1, len(full) - 1))
-        if sorted({grade_of(k) for k in ks}) != gs and rng.random() < 0.5:
-            gs = sorted({grade_of(k) for k in ks})
+        for _ in range(20):
+            ks = rng.sample(full, rng.randint(1, len(full) - 1))
+            if not complete(ks):
+                break
+        else:
+            return malformed_case(cx, rng, spec)
+        gs = None
         sub = 'incomplete'
     else:
         ks = full[:]
@@ -692,11 +708,21 @@ def malformed_case(cx, rng, spec):
             rng.shuffle(ks)
         sub = 'permuted'
     at = Atoms(rng, len(ks), vtype)
-    which = rng.choice(['kv', 'kw', 'name', 'conv']) if sub == 'incomplete' else 'kv'
+    which = rng.choice(['kv', 'kw', 'name', 'conv', 'map', 'map']) if sub == 'incomplete' else rng.choice(['kv', 'map'])
     if which == 'kv':
         inp = {'keys': [k if rng.random() < 0.7 else A.bin2canon[k] for k in ks], 'values': list(at.given)}
         if rng.random() < 0.3:
-            inp['grades'] = gs
+            inp['grades'] = sorted({grade_of(k) for k in ks})
+        if rng.random() < 0.3:
+            inp['keys_as_list'] = True
+        return ctor, inp, at, 'graded-' + sub
+    if which == 'map':
+        inp = {'values': {(k if rng.random() < 0.7 else A.bin2canon[k]): v for k, v in zip(ks, at.given)}}
+        if rng.random() < 0.3:
+            inp['grades'] = sorted({grade_of(k) for k in ks})
+        if rng.random() < 0.2:
+            ctor = 'evenmv' if all(grade_of(k) % 2 == 0 for k in ks) else ctor
+            inp.pop('grades', None) if ctor == 'evenmv' else None
         return ctor, inp, at, 'graded-' + sub
     if which == 'kw':
         return ctor, {'items': {random_spelling(rng, A.bin2canon[k]): v for k, v in zip(ks, at.given)}}, at, 'graded-' + sub
@@ -706,7 +732,7 @@ def malformed_case(cx, rng, spec):
     ks = [k for k in ks if grade_of(k) == g]
     if len(ks) == len(A.indices_for_grade[g]):
         ks = ks[:-1]
-    if not ks:
+    if not ks or complete(ks):
         return malformed_case(cx, rng, spec)
     at = Atoms(rng, len(ks), vtype)
     return f'purevector:{g}', {'items': {A.bin2canon[k]: v for k, v in zip(ks, at.given)}}, at, 'graded-' + sub
@@ -791,7 +817,7 @@ def exhaustive_spellings(cx, rng, dmax, sample_above):
                 checks.append(f'resb_eqb (contains A {mt} {key_term(it)}) {exp}')
             cx.add_case(spec, ' && '.join(f'({c})' for c in checks), kv.blist(f'({c})' for c in checks),
                         {'kind': 'accessors', 'spec': spec, 'desc': f'fromkeysvalues(keys={keys})', 'impl': coded,
-                         'replay': {'ctor': 'fromkeysvalues', 'form': 'getattr', 'inp': {'keys': keys}}})
+                         'replay': {'ctor': 'fromkeysvalues', 'form': 'getattr', 'inp': {'keys': keys}}}, show_default='[]')
 
 
 PROBES = [
